@@ -356,6 +356,10 @@ func (np *Pool) UnmarshalMsg(b []byte) ([]byte, error) {
 		return nil, err
 	}
 
+	// restore what MarshalMsg wrote: the pool type and the id -> node map (HasNode, GetNode, Size read it)
+	np.Type = d.Type
+	np.NodesMap = d.NodesMap
+
 	np.Nodes = make([]*Node, 0, len(d.NodesMap))
 	for k := range d.NodesMap {
 		n := d.NodesMap[k]
